@@ -17,6 +17,22 @@ The BLOCK3 state machine (PsV.Nnls.block3Run, the object of block3_nonneg_invari
 with exact solves on the same systems and its exit kind is compared with the C run; on non-degenerate systems
 also its branch trace (full / boundary / walk counts).
 Constants (KKT_TOL, max_iter, the BLOCK3 tolerance formula) are re-read from the source on every run.
+
+Input classes (harness/nnls_harness.cpp): kinds 0-7 small (n <= 12, exact SPD certificate + exhaustive reference) and large
+sparse banded (n <= 400, kktCheck only).  Kinds 8-10 are DENSE systems with n = 30..220 and small-integer entries
+(kktCheck only): they are the classes on which modify_factor (cholesky_solve.c) takes its row-by-row path
+(cholmod_rowadd / cholmod_rowdel on the full-size factor) for SEVERAL rows in one call, which needs a nearly dense factor
+with n > ~14 x (rows changed), an earlier update request that built the full-size factor, and then >= 2 coefficients
+released (or constrained) together:
+   8  dense integer Gram B'B+I with random / mostly positive / planted right-hand sides,
+   9  staged release: strictly diagonally dominant signed graph Laplacian + I with a dense core and a chain of small groups
+      that are released together one iteration after the other (group sizes chosen for nnls_normal_block3 and, with a
+      first group >= 8, for the block-switching rule of nnls_normal_block_updown), optionally scaled by powers of two,
+  10  overshoot: every coefficient released first, a planted group of slightly negative components constrained together
+      (multi-row deletion).
+The harness counts, from the solvers' verbose output, the runs whose factor was updated row by row and those with a call
+that changed >= 2 rows; the counts are part of the measured coverage (`rowmod`).
+The driver's work is quadratic in n on these systems; the systems are dealt to several driver processes.
 """
 import json, os, re, struct
 import psvlib
@@ -24,7 +40,10 @@ import psvlib
 SOLVERS = {0: "nnls_lawson_hanson(normaleq=1)", 1: "nnls_normal_block", 2: "nnls_normal_block_updown",
            3: "nnls_normal_block3", 4: "nnls_lawson_hanson(normaleq=0)"}
 KINDS = {0: "dense dyadic Gram", 1: "sparse dyadic Gram", 2: "degenerate (exact zeros, ties)", 3: "badly scaled 1e+-6",
-         4: "arbitrary doubles", 5: "large sparse", 6: "least-squares form", 7: "extremely scaled (D over 1e+-6), Cholesky-based solvers only"}
+         4: "arbitrary doubles", 5: "large sparse", 6: "least-squares form", 7: "extremely scaled (D over 1e+-6), Cholesky-based solvers only",
+         8: "dense integer Gram B'B+I, n 40..220",
+         9: "staged release (dense signed-Laplacian+I core, chain of small groups freed together), n 30..220",
+         10: "overshoot (all freed first, a planted group of negative components constrained together), n 30..220"}
 
 
 EXPECTED_CONSTANTS = {"KKT_TOL": 1e-6, "max_iter": 120, "block3_factor": 1e5}
@@ -53,6 +72,13 @@ def read_constants(ctx):
     return consts
 
 
+NREF = 12
+
+
+def spd_how(n):
+    return "an exactly certified" if n <= NREF else "a by-construction"
+
+
 def kv(s):
     return dict(p.split("=", 1) for p in s.split() if "=" in p)
 
@@ -64,11 +90,41 @@ def build(ctx, mode):
 
 def sys_replay(sysline, xline=None, implline=None):
     w = sysline.split()
-    r = {"system_line": sysline if len(sysline) < 20000 else sysline[:20000] + " ...", "n": int(w[3]), "kind": KINDS.get(int(w[2]), w[2])}
+    # the dense systems of kinds 8-10 need up to ~1.5 MB (bit patterns of every entry); only the first five violations are
+    # written to replays/, so the full line is kept: the replay then runs exactly this system
+    r = {"system_line": sysline if len(sysline) < 4000000 else sysline[:20000] + " ...", "n": int(w[3]), "kind": KINDS.get(int(w[2]), w[2])}
     if xline: r["call_line"] = xline
     if implline: r["impl_line"] = implline[:4000]
     r["replay_cmd"] = "python3 bin/check.py C11 --replay <this file>"
     return r
+
+
+def run_driver_parallel(ctx, drv_in, jobs=None):
+    """The driver's protocol is stateful only within one system (a SYS line and the X / B3 lines that follow it), and its
+    cost is quadratic in n for the dense systems: deal the systems round-robin to a few driver processes and put the
+    answers back in input order.  Returns the output lines or None."""
+    if not ctx.driver_ok(): return None
+    jobs = jobs or max(1, min(6, (os.cpu_count() or 2) // 2))
+    blocks = []
+    for line in open(drv_in):
+        if line.startswith("SYS") or not blocks: blocks.append([])
+        blocks[-1].append(line)
+    jobs = max(1, min(jobs, len(blocks)))
+    names = ["%s.part%d" % (drv_in, k) for k in range(jobs)]
+    files = [open(nm, "w") for nm in names]
+    for k, blk in enumerate(blocks): files[k % jobs].writelines(blk)
+    for f in files: f.close()
+    from concurrent.futures import ThreadPoolExecutor
+    with ThreadPoolExecutor(jobs) as ex:
+        oks = list(ex.map(lambda nm: ctx.run_driver("C11", nm, nm + ".out"), names))
+    if not all(oks): return None
+    outs = [open(nm + ".out").read().splitlines() for nm in names]
+    pos = [0] * jobs; olines = []
+    for k, blk in enumerate(blocks):
+        j = k % jobs
+        olines += outs[j][pos[j]:pos[j] + len(blk)]; pos[j] += len(blk)
+    if any(pos[j] != len(outs[j]) for j in range(jobs)): return []      # truncated / surplus output: the caller's length check fails
+    return olines
 
 
 def evaluate(ctx, consts, cases, impl, nref, acc, tag):
@@ -90,11 +146,10 @@ def evaluate(ctx, consts, cases, impl, nref, acc, tag):
                     f.write("B3 %s %s %d\n" % (w[1], w[3], consts["max_iter"])); meta.append(("B3", c, i, cur))
             else:
                 meta.append(("FAIL", c, i, cur))
-    drv_out = drv_in + ".out"
     live = [m for m in meta if m[0] != "FAIL"]
-    if not ctx.driver_ok() or not ctx.run_driver("C11", drv_in, drv_out):
+    olines = run_driver_parallel(ctx, drv_in)
+    if olines is None:
         ctx.tie_ok = False; ctx.broken.append({"kind": "driver failed"}); return
-    olines = open(drv_out).read().splitlines()
     if len(olines) != len(live):
         ctx.tie_ok = False; ctx.broken.append({"kind": "driver output truncated", "want": len(live), "got": len(olines)}); return
     out_of = {}
@@ -122,7 +177,7 @@ def evaluate(ctx, consts, cases, impl, nref, acc, tag):
         name = SOLVERS[solver]
         if m[0] == "FAIL":
             acc["evaluations"] += 1
-            what = "%s %s on a certified SPD system (n=%d, %s)" % (name, "did not terminate within the time limit in 3 attempts" if i.startswith("hang") else "aborted: " + i, n, KINDS[kind])
+            what = "%s %s on %s SPD system (n=%d, %s)" % (name, "did not terminate within the time limit in 3 attempts" if i.startswith("hang") else "aborted: " + i, spd_how(n), n, KINDS[kind])
             ctx.report("%s:%s" % (name, i.split()[0]), sys_replay(cur, c, i), what)
             continue
         o = kv(out_of[idx]); info = kv(i.split("|")[1]) if "|" in i else {}
@@ -157,9 +212,21 @@ def evaluate(ctx, consts, cases, impl, nref, acc, tag):
         if cap: acc["cap_exits"][name] = acc["cap_exits"].get(name, 0) + 1
         for key in ("walk", "boundary"):
             if solver == 3 and info.get(key, "0") != "0": acc["block3_" + key + "_cases"] += 1
+        if solver in (2, 3):
+            # measured coverage of modify_factor's row-by-row path (cholmod_rowadd / rowdel on the full-size factor):
+            # runs with at least one call / with a call that changed >= 2 rows at once
+            ru = acc["rowmod"].setdefault(name, {"runs_with_row_updates": 0, "runs_with_multirow_add": 0, "runs_with_multirow_delete": 0, "max_rows_in_one_call": 0})
+            if int(info.get("rowadd", "0")) + int(info.get("rowdel", "0")) > 0: ru["runs_with_row_updates"] += 1
+            if int(info.get("madd", "0")) > 0: ru["runs_with_multirow_add"] += 1
+            if int(info.get("mdel", "0")) > 0: ru["runs_with_multirow_delete"] += 1
+            ru["max_rows_in_one_call"] = max(ru["max_rows_in_one_call"], int(info.get("maxrows", "0")))
         if o.get("finite") != "1":
-            ctx.report("%s:nonfinite" % name, sys_replay(cur, c, i), "%s returned a non-finite vector on a certified SPD system (n=%d, %s)" % (name, n, KINDS[kind])); continue
+            ctx.report("%s:nonfinite" % name, sys_replay(cur, c, i), "%s returned a non-finite vector on %s SPD system (n=%d, %s)" % (name, spd_how(n), n, KINDS[kind])); continue
         rel = float(o.get("rel", "nan")); acc["worst_rel"][name] = max(acc["worst_rel"].get(name, 0.0), rel if o.get("kkt") == "1" else 0.0)
+        if kind >= 8 and o.get("kkt") == "1":
+            # margin of the tolerance on the dense medium classes (largest violation / largest tolerance component; indicative)
+            try: acc["medium_worst_need_over_tol"][name] = max(acc["medium_worst_need_over_tol"].get(name, 0.0), float(o.get("need", "0")) / float(o.get("tolmax", "1")))
+            except (ValueError, ZeroDivisionError): pass
         bad = None
         if solver == 3 and o.get("nonneg") != "1": bad = "returned a negative component (negpart=%s): the solver used by fitting must be exactly non-negative" % o.get("negpart")
         elif o.get("negok") != "1": bad = "returned a component below -tolerance (negpart=%s)" % o.get("negpart")
@@ -169,9 +236,11 @@ def evaluate(ctx, consts, cases, impl, nref, acc, tag):
             if cap and solver != 3:
                 acc["cap_nonkkt"][name] = acc["cap_nonkkt"].get(name, 0) + 1   # non-convergence exit: reported separately, no optimality claim
                 continue
+            acc["violations_by_kind"][KINDS[kind]] = acc["violations_by_kind"].get(KINDS[kind], 0) + 1
+            acc["violations_by_solver"][name] = acc["violations_by_solver"].get(name, 0) + 1
             sig = "%s:%s" % (name, "nonkkt-after-walk" if (solver == 3 and info.get("walk", "0") != "0") else "nonkkt")
             ctx.report(sig, sys_replay(cur, c, i + " || driver: " + out_of[idx]),
-                       "%s %s on a certified SPD system (n=%d, %s; trace %s)%s" % (name, bad, n, KINDS[kind], i.split("|")[1].strip() if "|" in i else "", "; iteration cap reached" if cap else ""))
+                       "%s %s on %s SPD system (n=%d, %s; trace %s)%s" % (name, bad, spd_how(n), n, KINDS[kind], i.split("|")[1].strip() if "|" in i else "", "; iteration cap reached" if cap else ""))
         else:
             nz = tuple(z != "0" for z in i[3:].split("|")[0].split())
             acc["distinct"].add((cur.split()[1], tag, solver, nz))
@@ -182,14 +251,14 @@ def evaluate(ctx, consts, cases, impl, nref, acc, tag):
 def new_acc():
     return {"systems": 0, "evaluations": 0, "not_spd_skipped": 0, "by_solver": {}, "cap_exits": {}, "cap_nonkkt": {}, "hang_retries": 0,
             "worst_rel": {}, "distinct": set(), "b3_runs": 0, "b3_exit_mismatch": 0, "b3_trace_equal": 0, "b3_trace_diff": 0,
-            "b3_trace_diff_by_kind": {}, "b3_trace_diff_nondegenerate": 0, "b3_trace_diff_samples": [], "b3_model_walks": 0, "block3_walk_cases": 0, "block3_boundary_cases": 0}
+            "b3_trace_diff_by_kind": {}, "b3_trace_diff_nondegenerate": 0, "b3_trace_diff_samples": [], "b3_model_walks": 0, "block3_walk_cases": 0, "block3_boundary_cases": 0, "rowmod": {}, "violations_by_kind": {}, "violations_by_solver": {}, "medium_worst_need_over_tol": {}}
 
 
 def run(ctx):
     ctx.audit()
     consts = read_constants(ctx)
     if consts is None: return
-    nsmall, nlarge = (420, 9) if ctx.tier == "quick" else (6000, 60)
+    nsmall, nlarge, nmed = (420, 9, 128) if ctx.tier == "quick" else (6000, 60, 900)
     modes = ["shipped"] if ctx.tier == "quick" else ["shipped", "san"]
     acc = new_acc(); dist = {}
     for mode in modes:
@@ -197,8 +266,8 @@ def run(ctx):
         if not exe:
             ctx.tie_ok = False; ctx.broken.append({"kind": "harness build failed", "mode": mode}); continue
         base = os.path.join(ctx.scratch, "c11_" + mode)
-        ns, nl = (nsmall, nlarge) if mode == "shipped" else (nsmall // 4, nlarge // 4)
-        rc, out, err = ctx.run([exe, str(ns), str(nl), base + ".in", base + ".impl", base + ".stats", repr(consts["KKT_TOL"]), "20"],
+        ns, nl, nm = (nsmall, nlarge, nmed) if mode == "shipped" else (nsmall // 4, nlarge // 4, nmed // 4)
+        rc, out, err = ctx.run([exe, str(ns), str(nl), base + ".in", base + ".impl", base + ".stats", repr(consts["KKT_TOL"]), "20", str(nm)],
                                timeout=3000, env={"OMP_NUM_THREADS": "1", "GOTO_NUM_THREADS": "1", "PSV_B3_FACTOR": repr(consts["block3_factor"])})
         if rc != 0:
             ctx.tie_ok = False
@@ -206,7 +275,7 @@ def run(ctx):
                           "NNLS harness %s (rc=%d): %s" % ("timed out" if rc == 124 else "aborted", rc, err[-600:]))
             continue
         dist[mode] = json.load(open(base + ".stats"))
-        evaluate(ctx, consts, base + ".in", base + ".impl", 12, acc, mode)
+        evaluate(ctx, consts, base + ".in", base + ".impl", NREF, acc, mode)
     finish(ctx, acc, dist, consts)
 
 
@@ -228,11 +297,16 @@ def finish(ctx, acc, dist, consts):
     ctx.assumptions += [
         "positive definiteness of the generated systems: exact certificate (symmetric, all elimination pivots > 0 in Rat) for n <= 12, proved equivalent to v'Av > 0 (spdCert_iff); larger systems are B'B + I in exact integer arithmetic (not certified by the driver)",
         "the exact solves of the BLOCK3 state machine (exactEnv: Gauss-Jordan on the passive set) are proved correct and total on certified systems (solveOn_solves, solveOn_returns, exactEnv_ExactEnv); the model-only exit innerFuel is proved unreachable there (block3_inner_terminates) and is reported as a broken tie if the driver ever prints it",
+        "the matrix is handed to the solvers in full storage (both triangles, stype 0) as glamfit does; CHOLMOD's symmetric storage (stype != 0) is outside the checked input space (the solvers do not support it: see design notes)",
+        "systems with n > 12: B'B + I, or (kinds 9/10) symmetric strictly diagonally dominant with positive diagonal (weighted signed-graph Laplacian + I, possibly scaled D A D by powers of two); symmetry is re-checked exactly by the driver, definiteness of these is by construction",
         "certificate checking: the solvers' convergence for all inputs is not proved (and is false at the iteration caps); iteration-cap exits are counted separately",
         "tolerance tol_i = tolS + negpart*sum|A_ij| + 64 n 2^-53 (sum_j |A_ij| x_j + |b_i|) (Cholesky-based solvers) / tolS + 64 max(n,rows) 2^-53 sum_i(sum_j |A|_ij x_j + |b|_i) (Lawson-Hanson: QR is not invariant under scaling; |A|=|M|'|M|, |b|=|M|'|v| in least-squares form): the rounding term is an envelope for CHOLMOD/SPQR backward error, measured worst componentwise ratio reported per solver",
         "OMP_NUM_THREADS=1; a scheduling-dependent hang of walk_descents (property C12) is retried up to 3 times and counted",
         "Lawson-Hanson relies on SuiteSparseQR's default rank tolerance; badly scaled systems keep column norms within 1e6 of each other (A entries over 1e+-6)",
     ]
+    if acc["violations_by_kind"]: ctx.note("not-KKT results by input class: %s by solver: %s" % (acc["violations_by_kind"], acc["violations_by_solver"]))
+    ctx.note("row-by-row factor updates (runs with any / with >= 2 rows added / deleted in one call): %s" % {
+        k.replace("nnls_normal_", ""): "%d/%d/%d" % (v["runs_with_row_updates"], v["runs_with_multirow_add"], v["runs_with_multirow_delete"]) for k, v in acc["rowmod"].items()})
     ctx.note("systems=%d evaluations=%d cap_exits=%s cap_nonkkt=%s hang_retries=%d worst_rel=%s b3: runs=%d exit_mismatch=%d trace_equal=%d trace_diff=%d C-walk-cases=%d" % (
         acc["systems"], acc["evaluations"], acc["cap_exits"], acc["cap_nonkkt"], acc["hang_retries"],
         {k: "%.1e" % v for k, v in acc["worst_rel"].items()}, acc["b3_runs"], acc["b3_exit_mismatch"], acc["b3_trace_equal"], acc["b3_trace_diff"], acc["block3_walk_cases"]))
@@ -259,5 +333,5 @@ def replay(ctx, path):
                 f.write("X %s %d %d\n" % (sid, s, bits(tol)))
     rc, out, err = ctx.run([exe, "replay", base + ".in", base + ".impl", "20"], timeout=600, env={"OMP_NUM_THREADS": "1"})
     acc = new_acc()
-    evaluate(ctx, consts, base + ".in", base + ".impl", 12, acc, "replay")
+    evaluate(ctx, consts, base + ".in", base + ".impl", NREF, acc, "replay")
     finish(ctx, acc, {}, consts)
